@@ -360,11 +360,24 @@ func runC05(c *Ctx, r *Report, tier string) {
 			for _, in := range b.Instrs {
 				if bo, ok := in.(*ssa.BinOp); ok && bo.Op.String() == "+" {
 					t := c.term(bo)
+					hit := false
 					if name == "(*Option).EnvKeyWithNamespace" && strings.HasPrefix(t, "((Group.EnvNamespace(") && strings.Contains(t, "Parser.EnvNamespaceDelimiter(") {
-						okCat = true
+						okCat, hit = true, true
 					}
 					if name == "(*Option).LongNameWithNamespace" && strings.HasPrefix(t, "((Group.Namespace(") && strings.Contains(t, "Parser.NamespaceDelimiter(") {
-						okCat = true
+						okCat, hit = true, true
+					}
+					if inner, ok := bo.X.(*ssa.BinOp); hit && ok {
+						// the prefix is added exactly for groups whose own namespace (the one prepended) is non-empty
+						nsT := c.term(inner.X)
+						_, req := c.Requires(fn, isInstr(bo), litIs("nonempty("+nsT+")", true), nil)
+						var other []string
+						for _, d := range c.controlDeps(fn, bo.Block()) {
+							if l, ok := c.edgeLit(d.B, d.Succ); ok && strings.HasPrefix(l.Term, "nonempty(Group.") && l.Term != "nonempty("+nsT+")" {
+								other = append(other, l.String())
+							}
+						}
+						r.Check(req && len(other) == 0, "ENVKEY", name, "a group's prefix is added exactly when that same namespace field is non-empty", c.ipos(bo), "REQ(nonempty(the field prepended)) and no test of another namespace field", fmt.Sprintf("necessary=%v, other tests: %s", req, strings.Join(other, "; ")))
 					}
 				}
 			}
